@@ -22,7 +22,7 @@ import re
 # lexer
 # ---------------------------------------------------------------------------
 
-PUNCTS = ["<<=", ">>=", "->*", "...", "::", "->", "++", "--", "<<", ">>", "<=", ">=", "==", "!=", "&&",
+PUNCTS = ["%:%:", "<<=", ">>=", "->*", "...", "<%", "%>", "<:", ":>", "%:", "::", "->", "++", "--", "<<", ">>", "<=", ">=", "==", "!=", "&&",
           "||", "+=", "-=", "*=", "/=", "%=", "&=", "|=", "^=", "##", ".*",
           "{", "}", "[", "]", "#", "(", ")", ";", ":", "?", ".", "+", "-", "*", "/", "%", "^", "&", "|",
           "~", "!", "=", "<", ">", ","]
